@@ -5,7 +5,16 @@ definition that contains the slot's expression (`def`) and the line(s) the expre
 on (`at`); TLC uses them to decide whether an error "points into the definition".
 """
 
-ENUM_VALUE_NAMES = {"Ea": ["AA", "AB"], "Eb": ["BA", "BB"], "Ec": ["CA", "CB"]}
+ENUM_VALUE_NAMES = {"Ea": ["AA", "AB"], "Eb": ["BA", "BB"], "Ec": ["CA", "CB"], "Ed": ["AA", "AB"]}
+# the spec's enum Ed is the enum `Ea' of an imported module: same name and value names as the local Ea, another type
+ENUM_SYNTAX = {"Ea": "Ea", "Eb": "Eb", "Ec": "Ec", "Ed": "im.Ea"}
+IMPORTED = {"im.emb": "enum Ea:\n  AA = 1\n  AB = 2\n"}
+MAIN = "m.emb"
+
+
+def files(text):
+    return dict(IMPORTED, **{MAIN: text})
+
 
 # what the skeleton below declares; TypingCheck.tla compares this with Typing!Leaves
 SKELETON_LEAVES = [
@@ -16,6 +25,7 @@ SKELETON_LEAVES = [
     {"name": "g", "decl": "Flag", "en": ""},
     {"name": "e", "decl": "Enum", "en": "Ea"},
     {"name": "h", "decl": "Enum", "en": "Eb"},
+    {"name": "m", "decl": "Enum", "en": "Ed"},
     {"name": "s", "decl": "Struct", "en": ""},
     {"name": "s.flag", "decl": "Struct", "en": ""},
     {"name": "r", "decl": "Array", "en": ""},
@@ -40,7 +50,7 @@ def expr(e, top=True):
     if k == "bool":
         return "true" if e["n"] else "false"
     if k == "ev":
-        return "%s.%s" % (e["s"], ENUM_VALUE_NAMES[e["s"]][e["n"] - 1])
+        return "%s.%s" % (ENUM_SYNTAX[e["s"]], ENUM_VALUE_NAMES[e["s"]][e["n"] - 1])
     if k == "ref":
         return e["s"]
     if k == "this":
@@ -80,6 +90,7 @@ def render(prog):
     s = prog["sites"]
     L = _Lines()
     sp = {}
+    L.add('import "im.emb" as im')
     L.add('[$default byte_order: "LittleEndian"]')
     ea1 = L.add("enum Ea:")
     l_amax = L.add("  [maximum_bits: %s]" % expr(s["amax"]))
@@ -97,7 +108,7 @@ def render(prog):
     l_sreq = L.add("  [requires: %s]" % expr(s["sreq"]))
     for t in ["  0 [+2]  bits:", "    0 [+3]  UInt  a", "    3 [+3]  Int  b", "    6 [+1]  Flag  f",
               "    7 [+1]  Flag  g", "    8 [+4]  Bcd  c", "  2 [+1]  Ea  e", "  3 [+1]  Eb  h",
-              "  4 [+2]  Inner  s", "  5 [+2]  UInt:8[2]  r", "  let vi = a + 1", "  let vb = a < 2",
+              "  4 [+2]  Inner  s", "  5 [+2]  UInt:8[2]  r", "  7 [+1]  im.Ea  m", "  let vi = a + 1", "  let vb = a < 2",
               "  let ve = f ? Ea.AB : e"]:
         L.add(t)
     l = L.add("  %s [+1]  UInt  t_start" % expr(s["start"]))
